@@ -12,13 +12,13 @@ pub fn serialize_resp_frame<W: Write>(frame: &RespFrame, writer: &mut W) -> Resu
     match frame {
         RespFrame::SimpleString(bytes) => {
             writer.write_all(b"+")?;
-            writer.write_all(bytes)?;
+            write_line_payload(bytes, writer)?;
             writer.write_all(b"\r\n")?;
         }
         
         RespFrame::Error(bytes) => {
             writer.write_all(b"-")?;
-            writer.write_all(bytes)?;
+            write_line_payload(bytes, writer)?;
             writer.write_all(b"\r\n")?;
         }
         
@@ -105,6 +105,19 @@ pub fn serialize_resp_frame<W: Write>(frame: &RespFrame, writer: &mut W) -> Resu
         }
     }
     
+    Ok(())
+}
+
+/// Write the payload of a simple string or error. These are terminated by the first CRLF, so a
+/// CR or LF inside the payload (e.g. client text echoed in an error message) would let request
+/// content change the framing of replies: each is replaced by a space.
+fn write_line_payload<W: Write>(bytes: &[u8], writer: &mut W) -> Result<()> {
+    if bytes.iter().any(|&b| b == b'\r' || b == b'\n') {
+        let clean: Vec<u8> = bytes.iter().map(|&b| if b == b'\r' || b == b'\n' { b' ' } else { b }).collect();
+        writer.write_all(&clean)?;
+    } else {
+        writer.write_all(bytes)?;
+    }
     Ok(())
 }
 
